@@ -19,6 +19,36 @@ CLAIMED = {
             "Trusted: TLC, the lexer/row parser (reserved 256-colour styles identify row kinds), the concretiser. Combined "
             "diffs and diff -u sources are covered by separate plans; arbitrary Unicode is covered by the payload alphabet only.",
             "5/C01"),
+    "C04": ("model_checking",
+            "TLC trace validation against Obs_Stream (raw rows carry the input line's bytes, in place) + TLC-judged rows=lines law on "
+            "pure text streams in every mode; design-level check of Impl_Stream",
+            "Every enumerated / transition-cover history that contains free text is replayed with seeded random free-text payloads "
+            "(embedded SGR, marker-like text not at line start, CR, invalid UTF-8) and TLC requires each such line to appear as one "
+            "row with identical bytes at its place among the rendered rows; pure text streams are run under nine modes and TLC "
+            "requires output rows = input lines.",
+            "Trusted: the list of construct-opening markers (read off the handler chain), the byte interner, the normalisation the "
+            "statement permits (CR removal, U+FFFD replacement). Truncation beyond max-line-length is not exercised.",
+            "5/C04"),
+    "C10": ("model_checking",
+            "TLC invariant Boundary on Impl_Stream (a diff line = end-of-input then fresh start, in every reachable state); replay of "
+            "TLC-enumerated complete sections A, B, A.B with the concatenation law and run-twice equality judged by TLC (Trace_Rel)",
+            "Design level: for every reachable state of the model, consuming a diff line writes exactly what end of input would have "
+            "written and leaves the per-file state of a fresh start, which gives Run(A.B) = Run(A).Run(B) by induction. Implementation "
+            "level: all (kind, last-line) classes of sections enumerated by TLC are paired in every order, plus random pairs/triples, "
+            "in six modes; TLC checks rows(AB) = rows(A).rows(B), that two runs agree, and that --show-config is deterministic.",
+            "Trusted: TLC, byte interning of rows. Submodule sections are not generated. Determinism is sampled (fresh process per run).",
+            "5/C10"),
+    "C14": ("model_checking",
+            "TLC: Impl_Stream => Obs_Stream (header descriptors) on all histories in bound; replay of enumerated + transition-cover "
+            "histories under path skins; TLC trace validation against Obs_Stream",
+            "Every section kind (modified, added, empty, deleted, renamed, renamed+changed, copied, mode-only, mode+change, binary, "
+            "new binary, bare) in every neighbourhood the abstract state graph distinguishes is replayed with plain, spaced, "
+            "mnemonic-prefixed and git-quoted paths; TLC requires exactly one header row per section, placed after the previous "
+            "section's rows and before the section's hunks, naming the right paths in order with the right label, mode/binary notes, "
+            "and one hunk header per hunk carrying its fragment token and the hunk's own file.",
+            "Trusted: reserved styles identify header rows; 'names a path' = git's path string occurs in the row. diff -u sources are "
+            "not generated yet.",
+            "5/C14"),
 }
 
 NOT_YET = "check not built yet in this round (see DESIGN.md section 9 for the build order)"
